@@ -133,6 +133,9 @@ func (p *c19) Run(c fw.Case) fw.Result {
 		res.Discarded = "scenario not JSON-able: " + err.Error()
 		return res
 	}
+	if c.Directed == "" && r.Chance(0.35) {
+		res.Count("assets.urn_query_groups_planted", int64(plantURNGroups(r.Fork("urn-groups"), base)))
+	}
 	res.Count("assets.urn_query_groups_neutralised", int64(neutraliseURNGroups(base)))
 	if c.Directed == "" {
 		shapeContacts(r.Fork("contact-shapes"), base, &res)
